@@ -1,0 +1,10 @@
+// SPDX-License-Identifier: GPL-3.0-or-later
+
+//go:build !verif
+// +build !verif
+
+package cla
+
+import "time"
+
+func verifTicker(_ *Manager, _ *time.Ticker) {}
